@@ -99,13 +99,14 @@ def rule_ode(ctx):
 FBG_ASS = {"retH": True, "input.noise": "none", "apodization": "uniform", "print_params": False, "filtfilt": True}
 
 
-def run_fbg(pkg, truth, extra=None):
+def run_fbg(pkg, truth, extra=None, stop_at=()):
     ass = dict(FBG_ASS)
     for k, v in truth.items():
         ass[k] = ("truth", v)
     if extra:
         ass.update(extra)
     it = Interp(pkg, param_classes={"input": "optical_signal"}, assumptions=ass, no_inline=("tau_g", "dispersion", "rcos", "si", "db"))
+    it.stop_at_calls = set(stop_at)
     outs = it.run(pkg.func("devices.FBG"))
     return it, outs
 
@@ -168,16 +169,24 @@ def rule_boundary_and_apply(ctx):
     else:
         ctx.unknown("C16.1", fi, r.node, "FBG: ODE arguments", "args=(delta, s, k, ...) not found")
     # H = S/R of the last column
-    Hs = env.get("H", [])
+    # the response variable by its role: the second element of the (output, H) pair returned under retH
+    hname = "H"
+    for o in outs:
+        if o.kind == "return" and isinstance(getattr(o.node, "value", None), ast.Tuple) and len(o.node.value.elts) == 2 and isinstance(o.node.value.elts[1], ast.Name):
+            hname = o.node.value.elts[1].id
+    Hs = env.get(hname, [])
     if not Hs:
-        ctx.unknown("C16.1", fi, fi.node, "FBG: H", "no assignment to H")
+        ctx.unknown("C16.1", fi, fi.node, "FBG: H", "no assignment to the returned response variable")
         return
     H0, H0stmt = Hs[0]
     y = Form.atom(("idx", Form.atom(("attr", r.result, "y")), TupleV([SliceV(Const(None), Const(None), Const(None)), Form.num(-1)])))
-    half = mk_fn("floordiv", [mk_fn("len", [y]), Form.num(2)])
-    Rf = Form.atom(("idx", y, SliceV(Const(None), half, Const(None))))
-    Sf = Form.atom(("idx", y, SliceV(half, Const(None), Const(None))))
-    ctx.check("C16.1", isinstance(H0, Form) and H0 == Sf / Rf, fi, H0stmt, "FBG: H = S/R of the final solution column", "reflection coefficient rho = S/R at z=-1/2",
+    wants = []
+    for n_y in (mk_fn("len", [y]), Form.atom(("attr", y, "size")), mk_fn("size", [y]), Form.atom(("idx", Form.atom(("attr", y, "shape")), Form.num(0)))):
+        half = mk_fn("floordiv", [n_y, Form.num(2)])   # the column is one-dimensional: len, size and shape[0] agree
+        Rf = Form.atom(("idx", y, SliceV(Const(None), half, Const(None))))
+        Sf = Form.atom(("idx", y, SliceV(half, Const(None), Const(None))))
+        wants.append(Sf / Rf)
+    ctx.check("C16.1", isinstance(H0, Form) and H0 in wants, fi, H0stmt, "FBG: H = S/R of the final solution column", "reflection coefficient rho = S/R at z=-1/2",
               "H is not S/R of sol.y[:, -1] (with R the first and S the second half): e.g. R/S exceeds 1 in magnitude")
     # filtfilt correction and application
     rets = [o for o in outs if o.kind == "return"]
@@ -238,64 +247,17 @@ def rule_routes(ctx):
 
 
 def rule_spec_tree(ctx):
-    """evaluate the parameter-resolution if-tree for every truthiness combination"""
+    """the parameter resolution is interpreted for every truthiness combination of the seven specification parameters (they are
+    only tested for truth, so 2^7 classes are exhaustive): incomplete -> ValueError on every path, complete -> constructs, and
+    no arithmetic touches a parameter that was not given"""
     pkg = ctx.pkg
     fi = pkg.func("devices.FBG")
     names = ("fc", "landa_D", "dneff", "vdneff", "kL", "L", "N")
-    tree = next((n for n in fi.node.body if isinstance(n, ast.If) and set(names) & {x.id for x in ast.walk(n.test) if isinstance(x, ast.Name)}), None)
-    if tree is None:
-        ctx.unknown("C16.4", fi, fi.node, "FBG parameter resolution", "if-tree not found")
-        return
-
-    def truthy(e, env):
-        if isinstance(e, ast.Name):
-            return env.get(e.id)
-        if isinstance(e, ast.UnaryOp) and isinstance(e.op, ast.Not):
-            v = truthy(e.operand, env)
-            return None if v is None else not v
-        if isinstance(e, ast.BoolOp):
-            vals = [truthy(v, env) for v in e.values]
-            if any(v is None for v in vals):
-                return None
-            return any(vals) if isinstance(e.op, ast.Or) else all(vals)
-        if isinstance(e, ast.Compare) and len(e.ops) == 1 and isinstance(e.ops[0], (ast.IsNot, ast.Is)) and isinstance(e.comparators[0], ast.Constant) and e.comparators[0].value is None:
-            v = truthy(e.left, env)
-            if v is None:
-                return None
-            return v if isinstance(e.ops[0], ast.IsNot) else not v
-        return None
-
-    def walk(stmts, env):
-        for s in stmts:
-            if isinstance(s, ast.If):
-                t = truthy(s.test, env)
-                if t is None:
-                    return ("unknown", src_of(s.test))
-                r = walk(s.body if t else s.orelse, env)
-                if r is not None:
-                    return r
-            elif isinstance(s, ast.Raise):
-                e = s.exc.func if isinstance(s.exc, ast.Call) else s.exc
-                return ("raise", src_of(e), s)
-            elif isinstance(s, ast.Assign) and isinstance(s.targets[0], ast.Name):
-                v = s.value
-                if isinstance(v, ast.Constant):
-                    env[s.targets[0].id] = bool(v.value)
-                    env["def:" + s.targets[0].id] = True
-                else:
-                    used = [x.id for x in ast.walk(v) if isinstance(x, ast.Name) and x.id in names]
-                    if any(not env.get(u) and not env.get("def:" + u) for u in used):
-                        return ("undefined", f"{src_of(s)} uses an unspecified parameter", s)
-                    env[s.targets[0].id] = True
-                    env["def:" + s.targets[0].id] = True
-        return None
-
     n_inc = n_ok = 0
     for combo in itertools.product((False, True), repeat=7):
-        env = dict(zip(names, combo))
-        given = dict(env)
-        r = walk([tree], env)
-        centre = given["fc"] or given["landa_D"]
+        given = dict(zip(names, combo))
+        it, outs = run_fbg(pkg, given, stop_at=("scipy.integrate.solve_ivp",))   # the resolution precedes the integration
+        rets = [o for o in outs if o.kind == "return"]
         if given["fc"]:
             complete = (given["dneff"] or given["vdneff"]) and (given["L"] or given["kL"] or given["N"])
         elif given["landa_D"]:
@@ -303,26 +265,23 @@ def rule_spec_tree(ctx):
         else:
             complete = False
         label = ", ".join(k for k in names if given[k]) or "nothing"
-        if r is not None and r[0] == "unknown":
-            ctx.unknown("C16.4", fi, tree, f"FBG spec [{label}]", f"test `{r[1]}` not decidable from truthiness")
-            return
+        absent_use = [(n_, o_) for (f_, n_, o_, d_) in it.falsy_arith if d_ <= 1 and isinstance(o_, Form) and o_.sym_name() in names and not given[o_.sym_name()]]
         if not complete:
             n_inc += 1
-            if r is None:
-                ctx.violation("C16.4", fi, tree, f"FBG specification given: {label}", "an incomplete specification (no centre, no index modulation or no length) is accepted instead of raising ValueError")
-            elif r[0] == "undefined":
-                ctx.violation("C16.4", fi, r[2], f"FBG specification given: {label}", f"incomplete specification is not rejected: {r[1]}")
-            elif r[1] != "ValueError":
-                ctx.violation("C16.4", fi, r[2], f"FBG specification given: {label}", f"raises {r[1]}, documented ValueError")
+            if rets:
+                why = "an incomplete specification (no centre, no index modulation or no length) is accepted instead of raising ValueError"
+                if absent_use:
+                    why = f"incomplete specification is not rejected: `{src_of(absent_use[0][0])}` uses an unspecified parameter"
+                ctx.violation("C16.4", fi, absent_use[0][0] if absent_use else rets[0].node, f"FBG specification given: {label}", why)
+            elif not outs or outs[-1].exc != "ValueError":
+                ctx.violation("C16.4", fi, outs[-1].node if outs else fi.node, f"FBG specification given: {label}", f"raises {outs[-1].exc if outs else None}, documented ValueError")
         else:
             n_ok += 1
-            if r is not None:
-                ctx.violation("C16.4", fi, r[2] if len(r) > 2 else tree, f"FBG specification given: {label}", f"a complete specification is rejected ({r[1]})")
-            else:
-                missing = [k for k in ("L", "landa_D", "dneff", "vdneff") if not (env.get(k) or env.get("def:" + k))]
-                if missing:
-                    ctx.violation("C16.4", fi, tree, f"FBG specification given: {label}", f"falls through with {missing} undefined")
-    ctx.holds("C16.4", fi, tree, f"FBG parameter resolution: 128 truthiness combinations ({n_inc} incomplete, {n_ok} complete)", "incomplete -> ValueError, complete -> all grating parameters defined")
+            if not rets:
+                ctx.violation("C16.4", fi, outs[-1].node if outs else fi.node, f"FBG specification given: {label}", f"a complete specification is rejected ({outs[-1].exc if outs else None})")
+            elif absent_use:
+                ctx.violation("C16.4", fi, absent_use[0][0], f"FBG specification given: {label}", f"a complete specification is rejected (`{src_of(absent_use[0][0])}` uses an unspecified parameter)")
+    ctx.holds("C16.4", fi, fi.node, f"FBG parameter resolution: 128 truthiness combinations ({n_inc} incomplete, {n_ok} complete)", "incomplete -> ValueError, complete -> all grating parameters defined")
 
 
 def run(ctx):
